@@ -390,6 +390,50 @@ def _side(cfg, t, truth):
     return cfg.reach([t.id], labels={label}, avoid=[t.id]), label
 
 
+@rule('C11.R13', min_instances=8)
+def every_request_has_its_reply_key(ctx):
+    """the transmit thread registers a caller under (REQUEST2REPLY[action], identifier); an action missing from the table is
+    registered under the catch-all key None, where ANY unmatched message (an asynchronous log event, a late reply) is taken for
+    its reply.  Every <X>REQUEST constant of frappy.protocol.messages that has a sibling <X>REPLY is therefore a key of
+    REQUEST2REPLY and maps to that sibling (IDENTREQUEST is handled apart, as the table's comment says)"""
+    from sa.model import UNKNOWN
+    m = ctx.m
+    msgs = m.modules.get('frappy.protocol.messages')
+    if msgs is None:
+        raise AnchorMissing('frappy.protocol.messages not found')
+    table = m.const_name(msgs, 'REQUEST2REPLY')
+    if table is UNKNOWN or not isinstance(table, dict):
+        ctx.undecided('frappy.protocol.messages.REQUEST2REPLY', None, 'table can not be folded')
+        return
+    n = 0
+    for name in sorted(msgs.consts):
+        if not name.endswith('REQUEST') or name == 'IDENTREQUEST':
+            continue
+        stem = name[:-len('REQUEST')]
+        rname = stem + 'REPLY'
+        if rname not in msgs.consts:
+            continue
+        req, rep = m.const_name(msgs, name), m.const_name(msgs, rname)
+        if UNKNOWN in (req, rep):
+            continue
+        n += 1
+        ctx.check(table.get(req) == rep, f'frappy.protocol.messages.REQUEST2REPLY:{name} maps to {rname}', msgs.consts[name], f'{req!r} -> {rep!r}',
+                  f'REQUEST2REPLY has {"no entry" if req not in table else "the entry " + repr(table.get(req))} for {name} ({req!r}): the client registers a '
+                  f'`{req}` request under the catch-all key None - the next unmatched message from the node (an asynchronous event, a late reply) is handed '
+                  'to the caller as its reply and the real reply is dropped as unhandled', None)
+    if n < 8:
+        raise AnchorMissing(f'only {n} REQUEST/REPLY constant pairs found in frappy.protocol.messages')
+
+
+@rule('C11.R14', min_instances=4)
+def reply_lines_arrive_complete(ctx):
+    """shared with C16.R5: the receive thread reads every message with AsynConn.readline - a reader that drops received bytes
+    on one of its ways out (a reply arriving in two segments more than the receive time-out apart) or misses a terminator
+    turns an answered request into a time-out for its caller"""
+    from sa.rules import c16
+    c16.framing(ctx)
+
+
 @rule('C11.R9', min_instances=6)
 def caller_path_obligations(ctx):
     """queue_request hands the entry to the transmit queue and returns it; get_reply: the wait is finite, on the timed-out side
